@@ -38,6 +38,7 @@ CONSTANTS MaxSteps,     \* length of the histories
           CloneAssums,  \* assumptions passed to a clone; "inherit" = none passed
           Subs,         \* subscripts requested from a clone; "none" = not requested
           SysTypes,     \* coordinate system types
+          XSysTypes,    \* kinds of EXPERIMENTAL coordinate systems (xcartesian / xcylindrical / xspherical)
           BatchSizes    \* NewBatch creates this many equally named objects in one step (counters reach two digits)
 
 VARIABLES ids,          \* [Prefix -> Nat]: last id handed out per prefix
@@ -51,6 +52,7 @@ Prefix == {"SYM", "FUN", "QTY", "SYS", "C", "VEC", ""}
 
 AllActions == {"NewSymbol", "NewIndexed", "NewFunction", "NewQuantity", "NewSystem", "Transform", "Rotate",
                "NewVectorSymbol", "NewVectorFunction", "NewQuantityVector", "NewBatch",
+               "NewFunctional", "NewExpSystem",
                "CloneAsSymbol", "CloneAsFunction", "CloneAsIndexed"}
 
 ASSUME Actions \subseteq AllActions
@@ -133,6 +135,39 @@ NewBatch(kind, n, d, a, k) ==
         /\ objs' = objs \o [i \in 1..k |-> Obj(kind, p, n, NONE, d, as, 0, TRUE, TRUE, i)]
         /\ hist' = Append(hist, [Step("NewBatch", n, NONE, d, as, NONE, 0, kind) EXCEPT !.k = k])
 
+\* a function whose DECLARED argument is another live object: a symbol, an unapplied function (a functional such
+\* as an action S[L]) or an applied function; printing the bare function shows the display names of both
+NewFunctional(i, n, d, v) ==
+  /\ n # NONE
+  /\ \/ v = "bare" /\ objs[i].kind \in {"symbol", "function"}
+     \/ v = "applied" /\ objs[i].kind = "function"
+  /\ New(Step("NewFunctional", n, NONE, d, NONE, NONE, i, v), "function", "FUN", n, NONE, d, NONE, i, {})
+
+\* an EXPERIMENTAL coordinate system: three base scalars (symbols) and three base vectors (vector symbols /
+\* vector functions) of its own, created in one step; several systems of one kind reuse the same display names
+\* (rho, phi, z ...), which is exactly where aliasing would hurt
+XPart(kind, p, n, d) == [kind |-> kind, p |-> p, n |-> n, d |-> d]
+XSys == [xcartesian   |-> <<XPart("symbol", "SYM", "x", "length"), XPart("symbol", "SYM", "y", "length"),
+                            XPart("symbol", "SYM", "z", "length"), XPart("vecsym", "SYM", "i", "one"),
+                            XPart("vecsym", "SYM", "j", "one"), XPart("vecsym", "SYM", "k", "one")>>,
+         xcylindrical |-> <<XPart("symbol", "SYM", "rho", "length"), XPart("symbol", "SYM", "phi", "angle"),
+                            XPart("symbol", "SYM", "z", "length"), XPart("vecfun", "FUN", "e_rho", "one"),
+                            XPart("vecfun", "FUN", "e_phi", "one"), XPart("vecsym", "SYM", "e_z", "one")>>,
+         xspherical   |-> <<XPart("symbol", "SYM", "r", "length"), XPart("symbol", "SYM", "theta", "angle"),
+                            XPart("symbol", "SYM", "phi", "angle"), XPart("vecfun", "FUN", "e_r", "one"),
+                            XPart("vecfun", "FUN", "e_theta", "one"), XPart("vecfun", "FUN", "e_phi", "one")>>]
+NewExpSystem(t) ==
+  /\ Room /\ "NewExpSystem" \in Actions
+  /\ LET parts == XSys[t]
+         \* how many of the first i parts draw on prefix q
+         Upto(i, q) == Cardinality({j \in 1..i : parts[j].p = q})
+         NVec == Cardinality({j \in DOMAIN parts : parts[j].kind = "vecsym"})
+     IN /\ ids' = [q \in Prefix |-> ids[q] + Upto(Len(parts), q) + (IF q = "VEC" THEN NVec ELSE 0)]
+        /\ objs' = objs \o [i \in DOMAIN parts |->
+                              Obj(parts[i].kind, parts[i].p, parts[i].n, NONE, parts[i].d, "open", 0, TRUE, FALSE,
+                                  Upto(i, parts[i].p))]
+        /\ hist' = Append(hist, [Step("NewExpSystem", NONE, NONE, NONE, NONE, NONE, 0, t) EXCEPT !.k = Len(parts)])
+
 \* a quantity vector is a container: three component quantities and one anonymous id, no symbol-like object
 NewQuantityVector ==
   /\ Room /\ "NewQuantityVector" \in Actions
@@ -171,6 +206,8 @@ Next ==
   \/ \E i \in DOMAIN objs : Rotate(i)
   \/ \E n \in Names, d \in DimNames : NewVectorSymbol(n, d) \/ NewVectorFunction(n, d)
   \/ NewQuantityVector
+  \/ \E i \in DOMAIN objs, n \in Names, d \in DimNames, v \in {"bare", "applied"} : NewFunctional(i, n, d, v)
+  \/ \E t \in XSysTypes : NewExpSystem(t)
   \/ \E kind \in DOMAIN BatchKinds, n \in Names, d \in DimNames, a \in Assums, k \in BatchSizes :
         NewBatch(kind, n, d, a, k)
   \/ \E i \in DOMAIN objs, n \in Names, l \in Latexes, s \in Subs, a \in CloneAssums : CloneAsSymbol(i, n, l, s, a)
